@@ -119,5 +119,6 @@ def walk_two_vertices(v0, v1, layers):
         else:
             position = (interpolation(value), value)
 
-        vertices_to_return.update(get_layer_elements(position, layers))
+        # collect pixels (getpixel truncates), not float positions: a pixel is counted once
+        vertices_to_return.update((int(px), int(py)) for px, py in get_layer_elements(position, layers))
     return vertices_to_return
